@@ -38,6 +38,10 @@ structure State where
   loc : Mid → NS → Bytes → Option Blob
   conf : Pid → List Digest
   mach : Pid → Mid
+  /-- taint markers (`taint/<label>`, empty files): the taint cache is built over the same wrapper
+      (cmds/build.go, cmds/taint.go: `NewTaintCache(cache)`), so markers are written to and looked up in BOTH tiers -/
+  rtaint : Bytes → Bool
+  ltaint : Mid → Bytes → Bool
 
 inductive Ev where
   | proc (p : Pid) (m : Mid)
@@ -46,6 +50,13 @@ inductive Ev where
   | existsAllRes (p : Pid) (k : Bytes) (r : Res)
   | getRes (p : Pid) (ns : NS) (k : Bytes) (r : Option Blob) (filled : Bool)
   | setRes (p : Pid) (ns : NS) (k : Bytes) (b : Blob) (lst rst ok : Bool)
+  /-- `TaintCache.Taint` = tee `Set` of an empty marker; `la`/`ra`: the marker is present in the local / remote tier afterwards -/
+  | taintSet (p : Pid) (l : Bytes) (la ra ok : Bool)
+  /-- `TaintCache.IsTainted` = wrapper `Exists` -/
+  | taintExists (p : Pid) (l : Bytes) (r : Res)
+  /-- `TaintCache.Clear` = wrapper `Delete` (local first, then remote; a failure is only logged by the executor);
+      `la`/`ra`: the marker is still present in the local / remote tier afterwards -/
+  | taintDelete (p : Pid) (l : Bytes) (la ra ok : Bool)
   deriving Repr
 
 def upd {α : Type} (f : Nat → α) (p : Nat) (v : α) : Nat → α := fun q => if q = p then v else f q
@@ -78,14 +89,36 @@ def step (v : Variant) (s : State) : Ev → Option State
         some { s with loc := upd s.loc (s.mach p) (put (s.loc (s.mach p)) ns k b) }
       else none
   | .getRes p ns k none filled =>
+    -- an error is returned; the local tier may nevertheless have been filled with the remote value
+    -- (the fill succeeded and the final `fs.Get` failed)
     match s.loc (s.mach p) ns k with
     | some _ => none
-    | none => if filled then none else some s
+    | none =>
+      if filled then
+        match s.remote ns k with
+        | some b => some { s with loc := upd s.loc (s.mach p) (put (s.loc (s.mach p)) ns k b) }
+        | none => none
+      else some s
   | .setRes p ns k b lst rst ok =>
     if (!ok || (lst && rst)) && b.refs.all (fun r => r ∈ s.conf p) then
       let s1 := if lst then { s with loc := upd s.loc (s.mach p) (put (s.loc (s.mach p)) ns k b) } else s
       let s2 := if rst then { s1 with remote := put s1.remote ns k b } else s1
       some (if ok ∧ ns = .cas then { s2 with conf := upd s2.conf p (k :: s2.conf p) } else s2)
+    else none
+  | .taintSet p l la ra ok =>
+    -- a Set never removes a marker; nil only if both tiers hold it
+    if (!ok || (la && ra)) && (!s.ltaint (s.mach p) l || la) && (!s.rtaint l || ra) then
+      some { s with ltaint := upd s.ltaint (s.mach p) (fun x => if x = l then la else s.ltaint (s.mach p) x),
+                    rtaint := fun x => if x = l then ra else s.rtaint x }
+    else none
+  | .taintExists p l .yes => if s.ltaint (s.mach p) l || s.rtaint l then some s else none
+  | .taintExists p l .no => if s.ltaint (s.mach p) l || s.rtaint l then none else some s
+  | .taintExists p l .err => if s.ltaint (s.mach p) l then none else some s
+  | .taintDelete p l la ra ok =>
+    -- a Delete never creates a marker; nil only if both tiers are rid of it; the remote is only asked after the local delete
+    if (!ok || (!la && !ra)) && (!la || s.ltaint (s.mach p) l) && (!ra || s.rtaint l) && (!la || ra == s.rtaint l) then
+      some { s with ltaint := upd s.ltaint (s.mach p) (fun x => if x = l then la else s.ltaint (s.mach p) x),
+                    rtaint := fun x => if x = l then ra else s.rtaint x }
     else none
 
 def run (v : Variant) (s : State) : List Ev → Option State
@@ -94,7 +127,10 @@ def run (v : Variant) (s : State) : List Ev → Option State
     | some s' => run v s' es
     | none => none
 
-def init : State := ⟨fun _ _ => none, fun _ _ _ => none, fun _ => [], fun _ => 0⟩
+def init : State := ⟨fun _ _ => none, fun _ _ _ => none, fun _ => [], fun _ => 0, fun _ => false, fun _ _ => false⟩
+
+/-- is `l` tainted as seen from machine `m` (wrapper `Exists` on the taint namespace) -/
+def viewTaint (s : State) (m : Mid) (l : Bytes) : Bool := s.ltaint m l || s.rtaint l
 
 def rvis (s : State) (d : Digest) : Bool := (s.remote .cas d).isSome
 
